@@ -432,6 +432,47 @@ def Fit.residualV (repaired : Bool) (F : Fit) (g : List Rat) : List Rat × List 
   ((F.models.map fun m => residualOf (condsVariant repaired m uniq) polyFn g).flatten,
    (F.models.map fun m => scaleOf (condsVariant repaired m uniq) g).flatten)
 
+/-! ### the Jacobian the fit hands to its optimiser (`Model._calculate_jacobian`, `Fit._calculate_jacobian`, the `jac`
+    closure of `Fit._fit`) -/
+
+/-- Model sensitivities: local parameter vector ↦ independent value ↦ the partial derivatives w.r.t. the local
+    parameters (`Model.jacobian` at one point, transposed). -/
+abbrev SensFn := List Rat → Rat → List Rat
+
+/-- The toy models: `np.vstack([x**k for k in range(n)])`. -/
+def polySensAux : Nat → Rat → Rat → List Rat
+  | 0, _, _ => []
+  | n + 1, x, pw => pw :: polySensAux n x (pw * x)
+
+def polySens : SensFn := fun p x => polySensAux p.length x 1
+
+/-- The rows of one dataset: a zero row of the width of the table per sample, then
+    `np.subtract.at(jacobian, (rows, p_indices), sensitivities[:, p_external])` (unbuffered: every local sensitivity is
+    subtracted from the column of its global parameter, repeated indices accumulate). -/
+def dataJacobian (J : SensFn) (c : Condition) (p : List Rat) (n : Nat) (d : Data) : List (List Rat) :=
+  d.x.map fun x => scatterRowSum c (List.replicate n 0) (J p (bitsToRat x))
+
+/-- `Model._calculate_jacobian`: conditions, datasets and samples in the order of the residual. -/
+def jacobianOf (conds : List (Condition × List Data)) (J : SensFn) (n : Nat) (g : List Rat) : List (List Rat) :=
+  conds.flatMap fun cd => cd.2.flatMap (dataJacobian J cd.1 (getLocalParams cd.1 g) n)
+
+def ModelData.jacobian (J : SensFn) (m : ModelData) (uniq : List String) (g : List Rat) : List (List Rat) :=
+  jacobianOf (generateConditions m uniq) J uniq.length g
+
+/-- `Fit._calculate_jacobian(parameter_values)`: the blocks of the models in constructor order. -/
+def Fit.jacobianAt (Js : List SensFn) (F : Fit) (g : List Rat) : List (List Rat) :=
+  (List.zipWith (fun (m : ModelData) J => m.jacobian J (F.table.map (·.1)) g) F.models Js).flatten
+
+/-- The `jac` callable `Fit._fit` hands to the optimiser: `parameter_vector[fitted] = params; return
+    self._calculate_jacobian(parameter_vector)[:, fitted]`. -/
+def Fit.jacObjective (Js : List SensFn) (F : Fit) (z : List Rat) : List (List Rat) :=
+  (F.jacobianAt Js (writeBack F.fitted z F.values)).map (maskSel F.fitted)
+
+/-- correspondence: all models are the polynomial toys; as-is / repaired grouping as for the residual -/
+def Fit.jacobianV (repaired : Bool) (F : Fit) (g : List Rat) : List (List Rat) :=
+  let uniq := F.table.map (·.1)
+  (F.models.map fun m => jacobianOf (condsVariant repaired m uniq) polySens uniq.length g).flatten
+
 /-! ### protocol -/
 open Verif.Proto
 
@@ -547,6 +588,24 @@ def runResid (repaired : Bool) (F : Fit) : List Action → List String
       | _ => []
     out ++ runResid repaired r.1 as
 
+/-- The Jacobians a script makes the fit evaluate (polynomial toys): at every query the full Jacobian at the current
+    values (all columns); at every fit that reaches its optimiser what the `jac` callable answers at the start point
+    (the fitted columns). -/
+def runJac (repaired : Bool) (F : Fit) : List Action → List String
+  | [] => []
+  | a :: as =>
+    let r := step repaired F a
+    let out : List String := match a with
+      | .query => ["q" ++ showList showRatList (r.1.jacobianV repaired r.1.values)]
+      | .fit o =>
+        let G := F.rebuild repaired
+        match (F.fit repaired (fun _ _ _ => o)).2 with
+        | .raised _ => ["f-"]
+        | .optRaised _ _ x0 _ | .done _ _ x0 _ =>
+          ["f" ++ showList showRatList ((G.jacobianV repaired (writeBack G.fitted x0 G.values)).map (maskSel G.fitted))]
+      | _ => []
+    out ++ runJac repaired r.1 as
+
 /-! parsing of one op line -/
 
 def target? : List String → Option (Target × List String)
@@ -636,6 +695,8 @@ def actions? : Nat → List String → Option (List Action)
   `c14.resid <same arguments as c14.run>` (polynomial toy models only) → for every `Q` `q[residual]~[magnitudes]`,
      for every `F` `f-` (optimiser not reached) | `f[residual at start]~[..]` | `f[at start]~[..]>[at answer]~[..]`,
      joined by `;` (as-is / repaired variants as for `c14.run`)
+  `c14.fjac <same arguments as c14.run>` (polynomial toy models only) → for every `Q` `q[[row]…]` (full Jacobian at the
+     table values), for every `F` `f-` | `f[[row]…]` (the `jac` callable at the start point: fitted columns)
   `c14.unique [..names..]`  → unique list and inverse indices -/
 def handle : List String → Option String
   | "c14.run" :: nm :: rest => do
@@ -653,6 +714,14 @@ def handle : List String → Option String
     let F : Fit := ⟨ms, [], false⟩
     let a := ";".intercalate (runResid false F acts)
     let b := ";".intercalate (runResid true F acts)
+    some (if a == b then a else a ++ " || " ++ b)
+  | "c14.fjac" :: nm :: rest => do
+    let nm ← nat? nm
+    let (ms, rest) ← models? nm rest
+    let acts ← actions? (rest.length + 1) rest
+    let F : Fit := ⟨ms, [], false⟩
+    let a := ";".intercalate (runJac false F acts)
+    let b := ";".intercalate (runJac true F acts)
     some (if a == b then a else a ++ " || " ++ b)
   | "c14.unique" :: toks => do
     let names ← toks.mapM str?
